@@ -4,8 +4,9 @@
   is an arbitrary function. The script code after removal of stand-alone OP_CODESEPARATORs is `sc`;
   that `stripOpCode script 0xab = ok sc` implies `sc = Spec.removeStandalone script 0xab` (every
   other byte preserved, pushes in any encoding copied verbatim) is C12's theorem `strip_spec`.
-  Non-mutation of the caller's transaction is checked on the Go side on every case (deep snapshot
-  before/after) and by C18; in the functional model the transaction is an immutable value.
+  Non-mutation of the caller's transaction: in the functional model the transaction is an immutable
+  value, so the statement lives in the pointer-level model Model/Heap.lean (frame and refinement
+  theorems at the end of this file); on the Go side every case compares a deep snapshot before/after.
 -/
 import BtcVerif.Proofs.HeapSigHash
 import BtcVerif.Proofs.SigHash
